@@ -94,7 +94,7 @@ Proof.
     destruct (ck_type c =? CT_C) eqn:EC.
     + (* intermediate *)
       rewrite nlen_app. change (nlen [c]) with 1.
-      destruct (mc <? (nlen (cget t req) + 1) mod 4294967296) eqn:Elim.
+      destruct (over mc ((nlen (cget t req) + 1) mod 4294967296)) eqn:Elim.
       * do 3 eexists. split; [reflexivity|]. split; [reflexivity|]. subst l'.
         intro r. rewrite aget_tdel, cget_tdel, tfind_tset. destruct (N.eqb_spec r req) as [->|].
         -- cbn. repeat split. intros x H; discriminate.
@@ -106,7 +106,7 @@ Proof.
         -- apply HI.
     + (* final *)
       rewrite (merge_adj _ Hadj'), datas_app.
-      destruct (ms <? blen (datas (cget t req) ++ ck_data c) mod 4294967296) eqn:Elim;
+      destruct (over ms (blen (datas (cget t req) ++ ck_data c) mod 4294967296)) eqn:Elim;
         (do 3 eexists; split; [reflexivity|]; split; [reflexivity|]; subst l';
          intro r; rewrite aget_tdel, cget_tdel, tfind_tdel; destruct (N.eqb_spec r req) as [->|];
          [cbn; repeat split; intros x H; discriminate | apply HI]).
@@ -197,23 +197,24 @@ Lemma tset_sta req n b v : tset (sta req n b) req v = [(req, v)].
 Proof. unfold sta. destruct (n =? 0); cbn; [reflexivity|]. now rewrite N.eqb_refl. Qed.
 
 Lemma spec_pieces mc ms req ps : forall n b rest,
-  (n = 0 -> b = []) -> n + nlen ps <= mc -> mc < 4294967296 ->
+  (n = 0 -> b = []) -> within mc (n + nlen ps) ->
   spec_all mc ms (sta req n b) (map (piece_chunk req) ps ++ rest)
   = spec_all mc ms (sta req (n + nlen ps) (b ++ concat (map snd ps))) rest.
 Proof.
-  induction ps as [|p ps IH]; intros n b rest Hnb Hle Hmc.
+  induction ps as [|p ps IH]; intros n b rest Hnb [Hlt Hle].
   - cbn. now rewrite N.add_0_r, app_nil_r.
-  - unfold nlen in Hle. cbn [length] in Hle. fold (nlen ps) in Hle.
+  - unfold nlen in Hle, Hlt. cbn [length] in Hle, Hlt. fold (nlen ps) in Hle, Hlt.
     cbn [map app spec_all]. unfold spec_step. cbn [piece_chunk ck_type ck_req ck_data].
     change (CT_C =? CT_A) with false. change (CT_C =? CT_C) with true. cbn iota.
     rewrite aget_sta by exact Hnb.
     rewrite N.mod_small by lia.
-    destruct (N.ltb_spec mc (n + 1)); [lia|].
+    replace (over mc (n + 1)) with false
+      by (unfold over; destruct (N.ltb_spec 0 mc); destruct (N.ltb_spec mc (n + 1)); cbn; try reflexivity; lia).
     rewrite tset_sta.
     change [(req, (n + 1, b ++ snd p))] with (if false then [] else [(req, (n + 1, b ++ snd p))]).
     replace false with (n + 1 =? 0) by (apply N.eqb_neq; lia).
     change (if n + 1 =? 0 then [] else [(req, (n + 1, b ++ snd p))]) with (sta req (n + 1) (b ++ snd p)).
-    specialize (IH (n + 1) (b ++ snd p) rest ltac:(lia) ltac:(unfold nlen in *; lia) Hmc).
+    specialize (IH (n + 1) (b ++ snd p) rest ltac:(lia) ltac:(unfold within, nlen in *; lia)).
     rewrite IH.
     replace (sta req (n + nlen (p :: ps)) (b ++ concat (snd p :: map snd ps)))
       with (sta req (n + 1 + nlen ps) ((b ++ snd p) ++ concat (map snd ps))).
@@ -222,21 +223,22 @@ Proof.
 Qed.
 
 Lemma spec_msg mc ms m rest :
-  mc < 4294967296 -> ms < 4294967296 -> smsg_ok mc ms m ->
+  smsg_ok mc ms m ->
   spec_all mc ms [] (smsg_chunks m ++ rest) =
   (fst (spec_all mc ms [] rest), smsg_out m :: snd (spec_all mc ms [] rest)).
 Proof.
-  intros Hmc Hms Hok. destruct m as [req ps sl last | req ps sa code reason]; cbn [smsg_chunks smsg_ok smsg_out] in *.
+  intros Hok. destruct m as [req ps sl last | req ps sa code reason]; cbn [smsg_chunks smsg_ok smsg_out] in *.
   - destruct Hok as [H1 H2]. rewrite <- app_assoc.
-    change ([] : atable) with (sta req 0 []) at 1. rewrite spec_pieces by (try lia; reflexivity).
+    change ([] : atable) with (sta req 0 []) at 1. rewrite spec_pieces by (try exact H1; reflexivity).
     cbn [app spec_all]. unfold spec_step. cbn [ck_type ck_req ck_data].
     change (CT_F =? CT_A) with false. change (CT_F =? CT_C) with false. cbn iota.
     rewrite aget_sta by (unfold nlen; destruct ps; [reflexivity|cbn; lia]).
-    rewrite tdel_sta. cbn [app]. rewrite N.mod_small by lia.
-    destruct (N.ltb_spec ms (blen (concat (map snd ps) ++ last))); [lia|].
+    rewrite tdel_sta. cbn [app]. destruct H2 as [H2a H2b]. rewrite N.mod_small by lia.
+    replace (over ms (blen (concat (map snd ps) ++ last))) with false
+      by (unfold over; destruct (N.ltb_spec 0 ms); destruct (N.ltb_spec ms (blen (concat (map snd ps) ++ last))); cbn; try reflexivity; lia).
     destruct (spec_all mc ms [] rest). reflexivity.
   - destruct Hok as (H1 & H2 & H3). rewrite <- app_assoc.
-    change ([] : atable) with (sta req 0 []) at 1. rewrite spec_pieces by (try lia; reflexivity).
+    change ([] : atable) with (sta req 0 []) at 1. rewrite spec_pieces by (try exact H1; reflexivity).
     cbn [app spec_all]. unfold spec_step. cbn [ck_type ck_req ck_data].
     change (CT_A =? CT_A) with true. cbn iota.
     rewrite tdel_sta, abort_decode_body by assumption.
@@ -244,10 +246,10 @@ Proof.
 Qed.
 
 Lemma spec_ref_stream mc ms msgs :
-  mc < 4294967296 -> ms < 4294967296 -> Forall (smsg_ok mc ms) msgs ->
+  Forall (smsg_ok mc ms) msgs ->
   snd (spec_all mc ms [] (ref_stream msgs)) = map smsg_out msgs.
 Proof.
-  intros Hmc Hms. induction 1 as [|m msgs Hm _ IH]; [reflexivity|].
+  induction 1 as [|m msgs Hm _ IH]; [reflexivity|].
   unfold ref_stream in *. cbn [map concat]. rewrite spec_msg by assumption. cbn [snd]. now rewrite IH.
 Qed.
 
